@@ -166,6 +166,7 @@ pub ghost struct Heap {
     pub task_events: Seq<(Tid, TaskState)>,   // Scheduler::emit_task_event(task) calls: (tid, state at the time)
     pub proc_events: Seq<TaskState>,     // Scheduler::emit_proc_event calls: process state at the time
     pub msg_closed: Seq<(Seq<char>, Seq<char>, MessageStatus)>,   // Store::set_message_with(pid, tid, status) calls
+    pub ctx_log: Seq<Tid>,               // Task::create_context calls (entry points: action, tick, task event)
     pub upserts: Seq<Tid>,               // Cache::upsert(task) calls (task row written to the store)
     pub messages: Seq<(Tid, MessageState)>,   // messages handed to Emitter::emit_message for a task: (tid, message state)
     pub now: int,
@@ -220,7 +221,7 @@ pub open spec fn fwd(a: Heap, b: Heap) -> bool {
     &&& forall|t: Tid| #[trigger] a.has(t) ==> b.has(t) && task_fwd(a.tasks[t], b.tasks[t])
     &&& forall|t: Tid| #[trigger] b.has(t) && !a.has(t) ==> b.tasks[t].revived <= 1
     &&& a.queue.is_prefix_of(b.queue) && a.task_events.is_prefix_of(b.task_events) && a.proc_events.is_prefix_of(b.proc_events) && a.msg_closed.is_prefix_of(b.msg_closed)
-    &&& a.upserts.is_prefix_of(b.upserts) && a.messages.is_prefix_of(b.messages)
+    &&& a.upserts.is_prefix_of(b.upserts) && a.messages.is_prefix_of(b.messages) && a.ctx_log.is_prefix_of(b.ctx_log)
 }
 pub proof fn lemma_task_fwd_trans(a: TaskAbs, b: TaskAbs, c: TaskAbs)
     requires task_fwd(a, b), task_fwd(b, c)
@@ -256,9 +257,10 @@ pub uninterp spec fn parent_tid(t: Tid) -> Option<Tid>;
 pub open spec fn children_of(h: Heap, t: Tid) -> Set<Tid> { h.tasks.dom().filter(|c: Tid| h.tasks[c].prev == Some(t)) }
 pub open spec fn tids(v: Seq<Arc<Task>>) -> Seq<Tid> { v.map_values(|t: Arc<Task>| t.id@) }
 pub open spec fn tasks_ok(h: Heap, v: Seq<Arc<Task>>) -> bool {
-    forall|i: int| 0 <= i < v.len() ==> h.has((#[trigger] v[i]).id@) && h.tasks[v[i].id@].node == v[i].node
+    forall|i: int| 0 <= i < v.len() ==> h.has((#[trigger] v[i]).id@) && h.tasks[v[i].id@].node == v[i].node && v[i].node.level < 0x4000_0000
 }
-pub open spec fn wf_task(h: Heap, t: Task) -> bool { h.has(t.id@) && h.tasks[t.id@].node == t.node }
+// (listed assumption: the node tree is less than 2^30 levels deep)
+pub open spec fn wf_task(h: Heap, t: Task) -> bool { h.has(t.id@) && h.tasks[t.id@].node == t.node && t.node.level < 0x4000_0000 }
 
 impl Task {
     // TRUSTED primitive layer: each contract mirrors a 1-5 line body of scheduler/process/task.rs over the RwLock'd fields
@@ -467,7 +469,7 @@ pub proof fn lemma_meta(a: Heap, b: Heap)
         b.tasks.dom() == a.tasks.dom(), forall|t: Tid| #[trigger] a.has(t) ==> meta_same(a.tasks[t], b.tasks[t]),
         b.proc_state == a.proc_state, b.next_seq == a.next_seq, b.hooks == a.hooks,
         a.queue.is_prefix_of(b.queue) && a.task_events.is_prefix_of(b.task_events) && a.proc_events.is_prefix_of(b.proc_events) && a.msg_closed.is_prefix_of(b.msg_closed),
-        a.upserts.is_prefix_of(b.upserts) && a.messages.is_prefix_of(b.messages),
+        a.upserts.is_prefix_of(b.upserts) && a.messages.is_prefix_of(b.messages) && a.ctx_log.is_prefix_of(b.ctx_log),
     ensures fwd(a, b), a.wf() && b.has(b.cur) ==> b.wf(),
 {
     reveal(Heap::wf);
@@ -785,7 +787,77 @@ pub proof fn lemma_stub_hooks(a: Heap, t: Tid, k: TaskLifeCycle, b: StatementBat
         }
     }
 }
+//@@ extract file=acts/src/package/mod.rs item="enum ActRunAs" name=ActRunAs
+//@@ opt structural
+//@@ end
+// model/info.rs PackageInfo: only the fields the extracted code reads
+pub struct PackageInfo { pub id: String, pub schema: String, pub run_as: ActRunAs }
+#[verifier::external_body]
+pub struct PackExec { _p: u8 }
+pub uninterp spec fn pack_info(uses: Seq<char>) -> Result<PackageInfo>;
+impl Executor { #[verifier::external_body] pub fn pack(&self) -> (r: &PackExec) { unimplemented!() } }
+impl PackExec {
+    // export/executor/package_executor.rs: get = find the package record in the store (ASSUMED: a function of the package name)
+    #[verifier::external_body]
+    pub fn get(&self, id: &str) -> (r: Result<PackageInfo>) ensures r == pack_info(id@) { unimplemented!() }
+}
+pub mod serde_json {
+    use vstd::prelude::*;
+    use super::{JsonValue, ActError};
+    verus! {
+    pub type Value = JsonValue;
+    // TRUSTED: serde_json::from_str (parse error converted to ActError by `?`)
+    #[verifier::external_body]
+    pub fn from_str(s: &str) -> (r: Result<JsonValue, ActError>) { unimplemented!() }
+    }
+}
+pub mod jsonschema {
+    use vstd::prelude::*;
+    use super::{JsonValue, ActError};
+    verus! {
+    // TRUSTED: jsonschema::validate (validation error converted to ActError by `?`)
+    #[verifier::external_body]
+    pub fn validate(schema: &JsonValue, v: &JsonValue) -> (r: Result<(), ActError>) { unimplemented!() }
+    }
+}
+#[verifier::external_body]
+pub struct PackageReg { _p: u8 }
+#[verifier::external_body]
+pub struct PackRegister { _p: u8 }
+#[verifier::external_body]
+pub struct PackFn { _p: u8 }
+impl Runtime { #[verifier::external_body] pub fn package(&self) -> (r: &PackageReg) { unimplemented!() } }
+impl PackageReg { #[verifier::external_body] pub fn get(&self, name: &str) -> (r: Option<PackRegister>) { unimplemented!() } }
+impl PackRegister {
+    // R7: `(register.create)(params)` -- build the package function object from the act params
+    #[verifier::external_body]
+    pub fn create_pack(&self, params: JsonValue) -> (r: Result<PackFn>) { unimplemented!() }
+}
+impl PackFn {
+    // package functions (set, code, block, parallel, sequence, subflow, ...) run with the task context: ASSUMED to keep the
+    // lifecycle summary (they build act nodes, write data, start sub-processes); the core packages are checked in their own units
+    #[verifier::external_body]
+    pub fn execute(&self, ctx: &Context, Tracked(h): Tracked<&mut Heap>) -> (r: Result<Option<Vars>>)
+        requires old(h).wf()
+        ensures final(h).wf(), fwd(*old(h), *final(h)), final(h).cur == old(h).cur, final(h).queue == old(h).queue,
+                forall|x: Tid| #[trigger] old(h).has(x) ==> final(h).tasks[x].state == old(h).tasks[x].state,
+    { unimplemented!() }
+}
+impl Node {
+    // tree/node.rs: Node::new = a detached node (no parent, children, next)
+    #[verifier::external_body]
+    pub fn new(id: &str, data: NodeContent, level: usize) -> (r: Node) ensures r.id@ == id@, r.content == data, r.level == level { unimplemented!() }
+}
+// utils/id.rs: shortid = nanoid (ASSUMED: some non-empty id)
+#[verifier::external_body]
+pub fn shortid() -> (r: String) ensures r@.len() > 0 { unimplemented!() }
+pub open spec fn has_timeout_hook(h: Heap, t: Tid) -> bool { hooks_of(h, t).dom().contains(TaskLifeCycle::Timeout) }
 impl Process {
+    // R7: `self.find_tasks(|t| t.hooks().contains_key(&TaskLifeCycle::Timeout))` -- the tasks that carry a Timeout hook list, by start time
+    #[verifier::external_body]
+    pub fn tasks_with_timeout_hooks(&self, Tracked(h): Tracked<&Heap>) -> (r: Vec<Arc<Task>>)
+        ensures tasks_ok(*h, r@), tids(r@).no_duplicates(), forall|t: Tid| #[trigger] tids(r@).contains(t) <==> h.has(t) && has_timeout_hook(*h, t),
+    { unimplemented!() }
     // R8: `ctx.proc.with_env_mut(|data| { for (k, v) in self.env.iter() { data.set(k, v.clone()); } })` -- process env only (not part of the task heap)
     #[verifier::external_body]
     pub fn set_env_from(&self, env: &Vars) { unimplemented!() }
@@ -863,7 +935,7 @@ impl Task {
     #[verifier::external_body]
     pub fn create_context(self: &Arc<Self>, Tracked(h): Tracked<&mut Heap>) -> (r: Context)
         requires wf_task(*old(h), **self)
-        ensures *final(h) == (Heap { cur: self.id@, action: None, ..*old(h) }),
+        ensures *final(h) == (Heap { cur: self.id@, action: None, ctx_log: old(h).ctx_log.push(self.id@), ..*old(h) }),
                 fwd(*old(h), *final(h)), old(h).wf() ==> final(h).wf(),     // consequences
     { unimplemented!() }
 }
